@@ -47,6 +47,12 @@ def _prod(ls):
 def build_params_vector(dg, data):
     n_data = data_shape(data)
     m_dep = dg.get_m_dep(data)
+    # inside a tf.function the static size may be unknown or belong to another trace
+    for i in m_dep:
+        for j in i:
+            if j.shape[0] != 1:
+                n_data = tf.shape(j)[0]
+                break
     ret = []
     for i in m_dep:
         tmp = i[0]
